@@ -302,7 +302,7 @@ Fixpoint encode (c : codec) (b : bytes) (ov : option val) (flags : Z) {struct c}
       let size := len s in
       if has flags proto_toplevel then
         if len b <? size then ret 0 (Some proto_ErrShortBuffer) b
-        else rlet (_, b) <- copy_at b 0 s in ret (len b) None b            (* returns len(b), m.Marshal(b) *)
+        else rlet (_, b) <- copy_at b 0 s in ret size None b               (* returns size, m.Marshal(b[:size]) *)
       else
         let vlen := proto_sizeOfVarlen size in
         if len b <? vlen then ret 0 (Some proto_ErrShortBuffer) b
